@@ -108,6 +108,8 @@ type shaper struct {
 	// leaf rules whose whole body is a class or a one-rune literal: references to them are drawn as
 	// alternatives of mergeable choices (inlined, then merged with DIFFERENT neighbours at every site)
 	termLeaves []string
+	// inputs that exercise a targeted shape of this grammar (run from the first rule, besides the drawn sentences)
+	hints []string
 }
 
 const plainRunes = "abcxyzABXZ019 _+-*(),;é"
@@ -338,6 +340,7 @@ var leafNames = []string{"LeafA", "LeafB", "LeafC", "Tok", "Word", "Sep"}
 // whose references go to leaf rules only (which refer to earlier leaf rules
 // only), so neither nullability nor the left-recursion graph changes.
 func (s *shaper) shape(g *ast.Grammar) (lone string) {
+	s.hints = nil
 	used := map[string]bool{}
 	for _, r := range g.Rules {
 		used[r.Name.Val] = true
@@ -428,6 +431,9 @@ func (s *shaper) shape(g *ast.Grammar) (lone string) {
 			}
 		}
 	}
+	if s.lf.throw && (handlerShapes || s.r.Intn(5) == 0) {
+		s.delegate(g, used)
+	}
 	if s.lf.throw && s.r.Intn(4) == 0 {
 		// D13b: a reference to a rule that does not exist
 		var cands []slot
@@ -441,6 +447,80 @@ func (s *shaper) shape(g *ast.Grammar) (lone string) {
 		}
 	}
 	return lone
+}
+
+// delegate adds the "delegating handlers" family (round 14: an optimizer step that drops a recovery operator whose
+// label is not thrown from its guarded expression - statically): the recovery expression of an OUTER operator throws
+// a label that only an INNER operator lists; the inner one is in force dynamically, because the outer recovery
+// expression runs at the throw site, inside the inner guarded expression.
+//
+//	DgO <- DgI //{dgo} DgD        DgI <- DgB //{dgi} DgS
+//	DgB <- a b / a %{dgo}         DgD <- %{dgi}  (or  c? %{dgi})       DgS <- c
+//
+// "a c" is matched only through both handlers. The first rule tries DgO first; hint inputs go with it.
+func (s *shaper) delegate(g *ast.Grammar, used map[string]bool) {
+	for _, nm := range []string{"DgO", "DgI", "DgB", "DgD", "DgS", "DgT"} {
+		if used[nm] {
+			return
+		}
+	}
+	pool := []rune("abcxyz01")
+	s.r.Shuffle(len(pool), func(i, j int) { pool[i], pool[j] = pool[j], pool[i] })
+	lit := func(r rune) *ast.LitMatcher {
+		l := ast.NewLitMatcher(ast.Pos{}, string(r))
+		return l
+	}
+	a, b, c := pool[0], pool[1], pool[2]
+	rule := func(nm string, e ast.Expression) *ast.Rule {
+		r := ast.NewRule(ast.Pos{}, ast.NewIdentifier(ast.Pos{}, nm))
+		r.Expr = e
+		return r
+	}
+	seq := func(es ...ast.Expression) ast.Expression {
+		x := ast.NewSeqExpr(ast.Pos{})
+		x.Exprs = es
+		return x
+	}
+	choice := func(es ...ast.Expression) ast.Expression {
+		x := ast.NewChoiceExpr(ast.Pos{})
+		x.Alternatives = es
+		return x
+	}
+	throw := func(l string) ast.Expression {
+		t := ast.NewThrowExpr(ast.Pos{})
+		t.Label = l
+		return t
+	}
+	recov := func(e ast.Expression, l string, r ast.Expression) ast.Expression {
+		x := ast.NewRecoveryExpr(ast.Pos{})
+		x.Expr, x.RecoverExpr, x.Labels = e, r, []ast.FailureLabel{ast.FailureLabel(l)}
+		return x
+	}
+	var dgd ast.Expression = throw("dgi")
+	if s.r.Intn(2) == 0 {
+		opt := ast.NewZeroOrOneExpr(ast.Pos{})
+		opt.Expr = lit(pool[3])
+		dgd = seq(opt, throw("dgi"))
+	}
+	var outer ast.Expression = recov(ref("DgI"), "dgo", ref("DgD"))
+	extra := []*ast.Rule{}
+	if s.r.Intn(3) == 0 {
+		// a further, outermost handler for the inner label: dropping the inner one changes WHICH recovery runs
+		outer = recov(outer, "dgi", ref("DgT"))
+		extra = append(extra, rule("DgT", seq(lit(c), lit(c))))
+		s.hints = append(s.hints, string([]rune{a, c, c}))
+	}
+	rules := []*ast.Rule{
+		rule("DgO", outer),
+		rule("DgI", recov(ref("DgB"), "dgi", ref("DgS"))),
+		rule("DgB", choice(seq(lit(a), lit(b)), seq(lit(a), throw("dgo")))),
+		rule("DgD", dgd),
+		rule("DgS", lit(c)),
+	}
+	rules = append(rules, extra...)
+	g.Rules[0].Expr = choice(seq(ref("DgO")), g.Rules[0].Expr)
+	g.Rules = append(g.Rules, rules...)
+	s.hints = append(s.hints, string([]rune{a, c}), string([]rune{a, b}), string([]rune{a, c, b}), string([]rune{a}))
 }
 
 // ---------------------------------------------------------------------------
